@@ -8,6 +8,9 @@ H1_REAL = ["pkg/gossip: clusterState, codec (encode/decodeDigest/Delta), packetL
 
 H2_REAL = ["pkg/gossip.Gossip", "server/gossip syncer (via NewGossip)", "server/cluster.State", "server/upstream.LoadBalancedManager", "ugorji msgpack codec", "prometheus client"]
 
+H3_REAL = ["server.Server (NewServer/Start/Shutdown): proxy, upstream, admin servers, gossip, syncer, cluster state, manager", "client.Upstream listeners, client.Dialer", "pkg/websocket, yamux, gorilla/websocket, gin, net/http, httputil.ReverseProxy"]
+H3_STUB = STUB_COMMON + ["upstream applications (harness HTTP/TCP servers behind real client listeners)", "TLS, DNS, remote JWKS: absent"]
+
 PROPS = {
     "SMOKE": dict(rule="kernel self-test workload; no oracle", batch=1, quick_budget=20, quick_runs=16,
                   real=["server.Server x3", "client.Upstream listeners"], stub=STUB_COMMON),
@@ -41,6 +44,12 @@ PROPS = {
     "C15": dict(claimed=True, engine="h2-routesim", level_text="seeded search over add/remove/select histories on the real manager: every selection is checked for validity (registered for exactly that endpoint now), no remote when forwarding is disallowed, and fairness (any n consecutive selections of a stable set of n are distinct); a concurrent family checks validity under interleaving",
                 rule="driven family: select-heavy scripts over 1-8 endpoints; concurrent family as C05. non-trivial = a full fairness window was checked",
                 batch=40, quick_budget=40, thorough_budget=900, real=H2_REAL, stub=STUB_COMMON + ["upstream connections (fake Upstream values registered with the real manager)"]),
+    "C01": dict(claimed=True, engine="h3-clustersim", level_text="seeded search over whole-system histories: 1-4 complete server nodes, up to 12 stamped upstream applications of several HTTP and TCP endpoints (near-miss names) placed on any node, requests through every entry node with every addressing mode, interleaved with upstream connect/disconnect/go-away/reset churn, gossip loss and partitions, node shutdowns and kills; every answer is checked against the addressed endpoint; after churn stops and routing information has settled every serving node must serve E iff some serving node holds an upstream for E (HTTP and TCP)",
+                rule="scripts of listen/unlisten/http/tcp/wait/partition/heal/shutdown/kill; distinct = distinct (script, schedule, event log); non-trivial = at least one upstream application and one request",
+                batch=6, quick_budget=45, thorough_budget=1200, real=H3_REAL, stub=H3_STUB),
+    "C06": dict(claimed=True, engine="h3-clustersim", level_text="seeded search: inconsistent per-node routing views are produced by partitioning gossip (not proxy) links while upstreams move; a passive sniffer on the simulated network counts, per request id, the proxy-port connections it crossed: never more than two, exactly one when the entry node holds a local upstream, and a request that arrives already marked as forwarded is served locally or refused with 502",
+                rule="as C01 with a partition-heavy profile and forwarded-marker probes; non-trivial as C01",
+                batch=6, quick_budget=45, thorough_budget=1200, real=H3_REAL, stub=H3_STUB),
 }
 
 NOT_APPLICABLE = {}
